@@ -96,6 +96,8 @@ func applyFn(id int) dataframe.FuncType {
 			return out
 		case 7:
 			return nil
+		case 9:
+			return x // hands back its own argument slice
 		default:
 			out := make([]any, len(x))
 			for i, v := range x {
